@@ -323,7 +323,7 @@ MANIFEST_TEXT = {
              'Entries that are not fixed struct fields are deterministic uninterpreted state transformers, so the proof does not depend on their kind.',
         note='Declarations are enumerated (quick: all of length 1, seeded samples of length 2 and 3, default + one seeded option set; thorough: all length <= 2, larger samples, all 16 option sets). '
              'Assumes struct multi-code format semantics, Fragments == its C11 contract, well-typed fixed Data values, no stored byte at/after the cursor. The generator itself is not verified, its outputs are. '
-             'On failure only class and phase of the PacketError are compared (the vectorised code may name the run of fixed fields).',
+             'On failure class, phase and the stack of (offset, name, class) entries of the PacketError are compared; the newest entry may name the run of fixed fields "between A and B" that contains the failing field, with the offset where A begins; the message text is not compared.',
         technique='translation validation by relational symbolic execution of the real generated code against the real generic loop (VCs from python ast, z3/cvc5)'),
     'C09': dict(
         text='Proof (unbounded) of the local contracts: the methods installed on fields and expressions build nodes with the operands in the order of the python data model '
